@@ -264,6 +264,7 @@ func TestC15(t *testing.T) {
 }
 
 type c15Dlg struct {
+	fromTag   string // "" = "f"+id
 	id        string
 	callID    string
 	at        labRx
@@ -274,7 +275,7 @@ type c15Dlg struct {
 }
 
 func c15Lab(t *testing.T, variant stdVariant, engine string) {
-	V.Require("lab: a refused re-INVITE leaves the pin in place", "lab: BYE answered dissolves the pin", "lab: NOTIFY terminated dissolves the pin", "lab: NOTIFY active keeps the pin", "lab: probe before expiry", "lab: probe after expiry", "lab: Expires extends the lifetime")
+	V.Require("lab: another dialog with the same Call-ID outlives what ends the first", "lab: a refused re-INVITE leaves the pin in place", "lab: BYE answered dissolves the pin", "lab: NOTIFY terminated dissolves the pin", "lab: NOTIFY active keeps the pin", "lab: probe before expiry", "lab: probe after expiry", "lab: Expires extends the lifetime")
 	svc, err := newStdSvc(variant)
 	if err != nil {
 		V.HarnessError(t, "cannot start %s instance: %v", engine, err)
@@ -381,7 +382,11 @@ func c15Lab(t *testing.T, variant stdVariant, engine string) {
 			return false, time.Time{}, time.Time{}, err
 		}
 		before := time.Now()
-		got, err := request(method, d.callID, "f"+d.id, "t"+d.id, extra)
+		ft := "f" + d.id
+		if d.fromTag != "" {
+			ft = d.fromTag
+		}
+		got, err := request(method, d.callID, ft, "t"+d.id, extra)
 		after := time.Now()
 		if err != nil || len(got) != 1 {
 			return false, before, after, fmt.Errorf("in-dialog %s not delivered to exactly one backend: %v\n%s", method, err, labDescribe(got))
@@ -403,6 +408,30 @@ func c15Lab(t *testing.T, variant stdVariant, engine string) {
 			V.HarnessError(rt, "%v", err)
 		}
 		hist := []string{"INVITE/200 pins " + d.id + " to " + d.pinned}
+		// now and then the call has a second leg: the same INVITE (Call-ID, From tag)
+		// lands on another backend as well, which answers with a To-tag of its own -
+		// a dialog of its own, which nothing that happens to the first one ends
+		var sib *c15Dlg
+		if rapid.IntRange(0, 2).Draw(rt, "a second dialog with the same Call-ID and From tag") == 0 {
+			sib = &c15Dlg{id: s.nextID("c15s"), callID: d.callID, fromTag: "f" + d.id, life: time.Second}
+			got, err := request("INVITE", sib.callID, sib.fromTag, "", "")
+			if err != nil || len(got) != 1 {
+				if lost(err) {
+					failf(rt, "%v", err)
+				}
+				V.HarnessError(rt, "second INVITE of the call not delivered to one backend: %v", err)
+			}
+			sib.at, sib.pinned = got[0], key(got[0])
+			lastRR = sib.pinned
+			sib.pinBefore = time.Now()
+			if err := answer(sib.at, 200, "t"+sib.id, ""); err != nil {
+				if lost(err) {
+					failf(rt, "%v", err)
+				}
+				V.HarnessError(rt, "%v", err)
+			}
+			hist = append(hist, "a second INVITE of the same call (Call-ID, From tag) is answered by "+sib.pinned+" with another To-tag: dialog "+sib.id)
+		}
 		V.Journal(t.Name()+"/"+engine+"-termination", hist)
 		expectPinned := true
 		dontCare := false
@@ -510,6 +539,21 @@ func c15Lab(t *testing.T, variant stdVariant, engine string) {
 				}
 			}
 			V.Journal(t.Name()+"/"+engine+"-termination", hist)
+		}
+		if sib != nil {
+			m := rapid.SampledFrom([]string{"INFO", "UPDATE", "MESSAGE"}).Draw(rt, "method for the other dialog of the call")
+			stuck, _, after, err := probeT(sib, m, "")
+			if err != nil {
+				failf(rt, "%v\nhistory: %v", err, hist)
+			}
+			hist = append(hist, fmt.Sprintf("%s in the call's other dialog %s (reached its backend: %v)", m, sib.id, stuck))
+			V.Journal(t.Name()+"/"+engine+"-termination", hist)
+			if after.Sub(sib.pinBefore) <= sib.life-50*time.Millisecond {
+				V.Class("lab: another dialog with the same Call-ID outlives what ends the first")
+				if !stuck {
+					failf(rt, "in-dialog %s of dialog %s (pinned to %s less than a dialog timeout ago; nothing ended it) was load-balanced - what happened to the other dialog of the same call (same Call-ID and From tag, another To-tag) does not concern it\nhistory: %v", m, sib.id, sib.pinned, hist)
+				}
+			}
 		}
 		V.NonTrivial(strings.Join(hist[1:], "|"))
 		V.SampleEvery(20, func() any { return hist })
